@@ -87,6 +87,13 @@ class C14(DevProp):
                 if u in ups and d in ups:
                     disturb.append(("chord", [k(ups[u], 1), k(ups[d], 1), k(ups[u], 0), k(ups[d], 0)]))
                     break
+            # stray releases (a key that was already down when the device attached, or whose press was lost): a release of a key that is
+            # not down must leave it "up"
+            disturb.append(("stray-release-held", [k(c, 0) for c in held] if held else []))
+            for name, dv in [("stray", [k(last, 0)]), ("stray", [k(c, 0) for c in perm])]:
+                ev = dv + [k(c, 1) for c in held] + [k(57, 1), k(57, 0)] + [k(c, 0) for c in held] + dv + [k(c, 1) for c in held] + \
+                    [k(last, 1)] + [k(c, 0) for c in perm] + [k(c, 1) for c in held] + [k(c, 0) for c in held] + [k(last, 1), k(last, 0)]
+                cases.append({"cfg": cfg, "abs": [], "events": ev, "tag": "disturb-stray-release"})
             for name, dv in disturb:
                 if not dv:
                     continue
